@@ -27,17 +27,25 @@ Kinds == << "deadlock",                  \* C13: a listen/close call did not ret
             "accept-not-unblocked",      \* C12: pending accept/read not released by Close
             "socket-not-released",       \* C12: address cannot be bound after the last close
             "connection-left-hanging",   \* C12: accepted connection neither served nor closed
-            "goroutine-leak" >>          \* C12: something keeps running after the last close
+            "goroutine-leak",            \* C12: something keeps running after the last close
+            "item-lost" >>               \* C12: a connection/datagram was never delivered although, from its arrival on, some
+                                         \*      handle of its address was open all the time and a call was still waiting
 NK == Len(Kinds)
 KindIdx(s) == CHOOSE i \in 1..NK : Kinds[i] = s
 
-VARIABLES l, closeStarted, closeDone, acc, delivered, vio, nsched, ndrift
-tvars == <<l, closeStarted, closeDone, acc, delivered, vio, nsched, ndrift>>
+VARIABLES l, closeStarted, closeDone, acc, delivered, vio, nsched, ndrift, keyOf, itemKey, gap
+tvars == <<l, closeStarted, closeDone, acc, delivered, vio, nsched, ndrift, keyOf, itemKey, gap>>
 
 Fresh == /\ closeStarted' = [h \in 1..MaxH |-> FALSE]
          /\ closeDone' = [h \in 1..MaxH |-> FALSE]
          /\ acc' = [t \in 0..MaxT |-> [h |-> 0, after |-> FALSE]]
          /\ delivered' = [i \in 1..MaxItem |-> 0]
+         /\ keyOf' = [h \in 1..MaxH |-> 0]
+         /\ itemKey' = [i \in 1..MaxItem |-> 0]
+         /\ gap' = [i \in 1..MaxItem |-> FALSE]
+
+\* handles of key k that are open: listen succeeded, Close not started
+OpenOn(k, cs) == {h \in 1..MaxH : keyOf[h] = k /\ ~cs[h]}
 
 Init == /\ l = 1
         /\ closeStarted = [h \in 1..MaxH |-> FALSE]
@@ -46,6 +54,9 @@ Init == /\ l = 1
         /\ delivered = [i \in 1..MaxItem |-> 0]
         /\ vio = [k \in 1..NK |-> 0]
         /\ nsched = 0 /\ ndrift = 0
+        /\ keyOf = [h \in 1..MaxH |-> 0]
+        /\ itemKey = [i \in 1..MaxItem |-> 0]
+        /\ gap = [i \in 1..MaxItem |-> FALSE]
 
 Flag(kinds) == vio' = [k \in 1..NK |-> IF vio[k] = 0 /\ Kinds[k] \in kinds THEN l ELSE vio[k]]
 
@@ -56,18 +67,22 @@ TrSched == Is("Sched") /\ Fresh /\ nsched' = nsched + 1 /\ UNCHANGED <<vio, ndri
 
 TrListenEnd == /\ Is("ListenEnd")
                /\ Flag(IF E.ok THEN {} ELSE {"listen-failed"})
-               /\ UNCHANGED <<closeStarted, closeDone, acc, delivered, nsched, ndrift>>
+               /\ keyOf' = IF E.ok THEN [keyOf EXCEPT ![E.h] = E.k] ELSE keyOf
+               /\ UNCHANGED <<closeStarted, closeDone, acc, delivered, nsched, ndrift, itemKey, gap>>
 
+\* when the last open handle of an address closes, everything undelivered on that address may legitimately be dropped
 TrCloseStart == /\ Is("CloseStart")
                 /\ closeStarted' = [closeStarted EXCEPT ![E.h] = TRUE]
-                /\ UNCHANGED <<closeDone, acc, delivered, vio, nsched, ndrift>>
+                /\ gap' = [i \in 1..MaxItem |->
+                            gap[i] \/ (itemKey[i] # 0 /\ itemKey[i] = keyOf[E.h] /\ OpenOn(keyOf[E.h], closeStarted') = {})]
+                /\ UNCHANGED <<closeDone, acc, delivered, vio, nsched, ndrift, keyOf, itemKey>>
 TrCloseEnd == /\ Is("CloseEnd")
               /\ closeDone' = [closeDone EXCEPT ![E.h] = TRUE]
-              /\ UNCHANGED <<closeStarted, acc, delivered, vio, nsched, ndrift>>
+              /\ UNCHANGED <<closeStarted, acc, delivered, vio, nsched, ndrift, keyOf, itemKey, gap>>
 
 TrAcceptStart == /\ Is("AcceptStart")
                  /\ acc' = [acc EXCEPT ![E.t] = [h |-> E.h, after |-> closeDone[E.h]]]
-                 /\ UNCHANGED <<closeStarted, closeDone, delivered, vio, nsched, ndrift>>
+                 /\ UNCHANGED <<closeStarted, closeDone, delivered, vio, nsched, ndrift, keyOf, itemKey, gap>>
 
 TrAcceptEnd ==
   /\ Is("AcceptEnd")
@@ -81,32 +96,53 @@ TrAcceptEnd ==
           /\ UNCHANGED <<delivered, ndrift>>
      ELSE /\ ndrift' = ndrift + 1 /\ UNCHANGED <<delivered, vio>>
   /\ acc' = [acc EXCEPT ![E.t] = [h |-> 0, after |-> FALSE]]
-  /\ UNCHANGED <<closeStarted, closeDone, nsched>>
+  /\ UNCHANGED <<closeStarted, closeDone, nsched, keyOf, itemKey, gap>>
 
 TrStuck == /\ Is("Stuck")
            /\ Flag(IF E.op \in {"listen", "close"} THEN {"deadlock"}
                    ELSE IF E.op = "accept-after-close" THEN {"accept-not-unblocked"} ELSE {"deadlock"})
-           /\ UNCHANGED <<closeStarted, closeDone, acc, delivered, nsched, ndrift>>
+           /\ UNCHANGED <<closeStarted, closeDone, acc, delivered, nsched, ndrift, keyOf, itemKey, gap>>
 
 TrRebind == /\ Is("Rebind")
             /\ Flag(IF E.ok THEN {} ELSE {"socket-not-released"})
-            /\ UNCHANGED <<closeStarted, closeDone, acc, delivered, nsched, ndrift>>
+            /\ UNCHANGED <<closeStarted, closeDone, acc, delivered, nsched, ndrift, keyOf, itemKey, gap>>
 
 TrItemFate == /\ Is("ItemFate")
               /\ Flag(IF E.fate = "hanging" THEN {"connection-left-hanging"} ELSE {})
               /\ ndrift' = IF E.fate = "served" /\ E.item >= 1 /\ E.item <= MaxItem /\ delivered[E.item] = 0
                            THEN ndrift + 1 ELSE ndrift
-              /\ UNCHANGED <<closeStarted, closeDone, acc, delivered, nsched>>
+              /\ UNCHANGED <<closeStarted, closeDone, acc, delivered, nsched, keyOf, itemKey, gap>>
 
 TrLeak == /\ Is("Leak")
           /\ Flag(IF E.n > 0 THEN {"goroutine-leak"} ELSE {})
-          /\ UNCHANGED <<closeStarted, closeDone, acc, delivered, nsched, ndrift>>
+          /\ UNCHANGED <<closeStarted, closeDone, acc, delivered, nsched, ndrift, keyOf, itemKey, gap>>
 
-TrOther == /\ l <= Len(Trace) /\ E.ev \in {"ListenStart", "Connect", "Replayed", "End"} /\ l' = l + 1
-           /\ UNCHANGED <<closeStarted, closeDone, acc, delivered, vio, nsched, ndrift>>
+\* an item is sent at some instant between ConnectStart and Connect: from ConnectStart on, any moment without an open
+\* handle on its address is a moment at which it may legitimately have been refused or dropped
+TrConnectStart == /\ Is("ConnectStart")
+                  /\ IF E.item >= 1 /\ E.item <= MaxItem
+                     THEN /\ itemKey' = [itemKey EXCEPT ![E.item] = E.k]
+                          /\ gap' = [gap EXCEPT ![E.item] = OpenOn(E.k, closeStarted) = {}]
+                     ELSE UNCHANGED <<itemKey, gap>>
+                  /\ UNCHANGED <<closeStarted, closeDone, acc, delivered, vio, nsched, ndrift, keyOf>>
+\* a send that failed (refused) creates no obligation
+TrConnect == /\ Is("Connect")
+             /\ gap' = IF ~E.ok /\ E.item >= 1 /\ E.item <= MaxItem THEN [gap EXCEPT ![E.item] = TRUE] ELSE gap
+             /\ UNCHANGED <<closeStarted, closeDone, acc, delivered, vio, nsched, ndrift, keyOf, itemKey>>
+
+\* the driver has waited (seconds) for deliveries to settle; scripts are finished or parked
+TrCleanupStart ==
+  /\ Is("CleanupStart")
+  /\ LET waitingOn(k) == \E t \in 0..MaxT : acc[t].h # 0 /\ keyOf[acc[t].h] = k /\ ~closeStarted[acc[t].h]
+         lost == {i \in 1..MaxItem : itemKey[i] # 0 /\ delivered[i] = 0 /\ ~gap[i] /\ waitingOn(itemKey[i])} IN
+     Flag(IF lost # {} THEN {"item-lost"} ELSE {})
+  /\ UNCHANGED <<closeStarted, closeDone, acc, delivered, nsched, ndrift, keyOf, itemKey, gap>>
+
+TrOther == /\ l <= Len(Trace) /\ E.ev \in {"ListenStart", "Replayed", "End"} /\ l' = l + 1
+           /\ UNCHANGED <<closeStarted, closeDone, acc, delivered, vio, nsched, ndrift, keyOf, itemKey, gap>>
 
 Next == TrSched \/ TrListenEnd \/ TrCloseStart \/ TrCloseEnd \/ TrAcceptStart \/ TrAcceptEnd \/ TrStuck
-        \/ TrRebind \/ TrItemFate \/ TrLeak \/ TrOther
+        \/ TrRebind \/ TrItemFate \/ TrLeak \/ TrOther \/ TrConnect \/ TrConnectStart \/ TrCleanupStart
 Spec == Init /\ [][Next]_tvars
 
 Report == (l = Len(Trace) + 1) => PrintT(<<"RESULT", l - 1, nsched, ndrift, vio>>)
